@@ -1,6 +1,7 @@
 PROP = {
     "level": "exploration",
-    "stages": [("lib", "c03", False, ())],
+    "stages": [("lib", "c03", False, ()), ("e2e", "c03e2e", False, ())],
+    "binaries": ("./cmd/thru", "./cmd/thruserv"),
     "assumptions": [
         "liveness is decided as bounded progress: watchdog exceeded, no stream byte for half the window, and a canary transfer completing afterwards",
         "loopback network without loss",
